@@ -19,7 +19,7 @@ from ..runner import Entry, corpus_cases
 from . import c18_translate
 
 PRE = ("From Coq Require Import QArith.\nFrom EsVerif.Common Require Import Base.\n"
-       "From EsVerif.C18 Require Import Model Spec Exec.\n")
+       "From EsVerif.C18 Require Import Model Spec SpecTol Exec.\n")
 
 
 # ----------------------------------------------------------------------------
@@ -107,13 +107,96 @@ def cres(out, f):
     return "(Ok %s)" % f(out[1]) if out[0] == "ok" else "(Err %s)" % out[1]
 
 
-def _arr(v, container):
+# ----------------------------------------------------------------------------
+# containers: how an argument is handed to the real routine.  The case always stores the exact values (python
+# floats); a container never changes a value (float32 data are rounded to float32 when the case is generated,
+# integer containers are only used for integer-valued data), so the exact-rational comparison is the same for all.
+#   f8 contiguous float64 array | f4 float32 array | i4 / i8 integer arrays | list (nested) python list |
+#   strided non-contiguous float64 view | scalar python number | 0d zero-dimensional array
+# ----------------------------------------------------------------------------
+def _flat(v):
+    if isinstance(v, (list, tuple)):
+        for x in v:
+            for y in _flat(x):
+                yield y
+    else:
+        yield v
+
+
+def _integral(v):
+    return all(float(x).is_integer() and abs(x) < 2 ** 30 for x in _flat(v))
+
+
+def f4ify(v):
     import numpy as np
-    if container == "list":
+    if isinstance(v, (list, tuple)):
+        return [f4ify(x) for x in v]
+    return float(np.float32(v))
+
+
+def pick_ct(r, v, kinds=("f8", "f4", "list", "strided", "int")):
+    """container for the data v; 'int' stands for i4/i8 and is offered only for integer-valued data"""
+    opts = ["f8"] * 4
+    for k in kinds:
+        if k == "int":
+            if _integral(v):
+                opts += ["i4", "i8", "i8"]
+        elif k != "f8":
+            opts.append(k)
+    return r.choice(opts)
+
+
+def prep(r, v, kinds=("f8", "f4", "list", "strided", "int"), ok=None):
+    """(values, container): float32 containers get float32-exact values; when that breaks the
+    precondition `ok` (e.g. a strictly increasing table) the data stay float64"""
+    ct = pick_ct(r, v, kinds)
+    if ct == "f4":
+        v4 = f4ify(v)
+        if all(abs(x) < 3e38 for x in _flat(v4)) and (ok is None or ok(v4)):
+            return v4, "f4"
+        return v, "f8"
+    return v, ct
+
+
+def mk(v, ct):
+    """the python object passed to esutil; asserts that it denotes exactly the values of the case"""
+    import numpy as np
+    if ct in ("list", "scalar") or v is None:
         return v
-    if container == "i8":
-        return np.array(v).astype("i8")
-    return np.array(v, dtype="f8")
+    if ct == "0d":
+        return np.array(v, dtype="f8")
+    ref = np.array(v, dtype="f8")
+    if ct == "strided":
+        if ref.ndim == 1:
+            buf = np.full(2 * ref.shape[0] + 1, np.nan)
+            a = buf[1::2]
+        elif ref.ndim == 2:
+            buf = np.full((2 * ref.shape[0], 2 * ref.shape[1] + 1), np.nan)
+            a = buf[::2, 1::2]
+        else:
+            return ref
+        a[...] = ref
+        assert a.size == 0 or not a.flags["C_CONTIGUOUS"] or a.size == 1
+        return a
+    a = ref.astype({"f8": "f8", "f4": "f4", "i4": "i4", "i8": "i8"}[ct])
+    assert np.array_equal(a.astype("f8"), ref), "container %s changes the values" % ct
+    return a
+
+
+def ct_of(c, k):
+    ct = c.get("ct") or {}
+    if k in ct:
+        return ct[k]
+    return c.get("container", "f8") if k == "x" else "f8"      # older corpus files
+
+
+def _ctfam(c):
+    ct = c.get("ct") or {}
+    tags = sorted(set(v for v in ct.values() if v not in ("f8",)))
+    return ("[" + ",".join(tags) + "]") if tags else ""
+
+
+EPS = {False: None, True: "eps_f4"}
 
 
 # ----------------------------------------------------------------------------
@@ -165,6 +248,11 @@ def sizes(ctx, big=False):
     return s
 
 
+def _l(v):
+    """a scalar argument is the one-element array (atleast_1d)"""
+    return v if isinstance(v, list) else [v]
+
+
 def _weights_equal(w):
     flat = [x for r in w for x in r] if (w and isinstance(w[0], list)) else list(w)
     return len(set(flat)) <= 1
@@ -189,15 +277,13 @@ class WMom(E):
             n = r.choice(sizes(ctx, big=True))
             dk, wk = r.choice(DATA_KINDS), r.choice(WEIGHT_KINDS)
             shape = r.choice(["1d", "1d", "Nd-w1", "Nd-w1", "Nd-wN"])
-            c = {"calcerr": r.random() < 0.5, "sdev": r.random() < 0.5, "container": "f8"}
+            c = {"calcerr": r.random() < 0.5, "sdev": r.random() < 0.5}
             if shape == "1d":
                 c["x"] = gen_data(r, n, dk)
                 c["w"] = gen_weights(r, n, wk)
                 imk = r.choice(["none", "none", "scalar", "array"])
                 c["im"] = None if imk == "none" else (r.choice(c["x"]) + r.gauss(0, 1) if imk == "scalar"
                                                       else [r.choice(c["x"]) + r.gauss(0, 1)])
-                if dk == "ints" and r.random() < 0.5:
-                    c["container"] = r.choice(["i8", "list"])
             else:
                 d = r.choice([1, 2, 2, 3, 4])
                 n = min(n, 60)
@@ -212,8 +298,14 @@ class WMom(E):
                 c["im"] = None if imk == "none" else (r.gauss(0, 3) if imk == "scalar"
                                                       else [cols[j][0] + r.gauss(0, 1) for j in range(d)])
             c["omit_defaults"] = r.random() < 0.5   # keywords equal to the source's defaults are not passed
-            c["family"] = "%s/%s/%s/im=%s" % (shape, dk if shape == "1d" else "mixed", wk,
-                                              "none" if c["im"] is None else ("array" if isinstance(c["im"], list) else "scalar"))
+            c["ct"] = {}
+            c["x"], c["ct"]["x"] = prep(r, c["x"])
+            c["w"], c["ct"]["w"] = prep(r, c["w"])
+            if isinstance(c["im"], list):
+                c["im"], c["ct"]["im"] = prep(r, c["im"])
+            c["family"] = "%s/%s/%s/im=%s%s" % (shape, dk if shape == "1d" else "mixed", wk,
+                                                "none" if c["im"] is None else ("array" if isinstance(c["im"], list) else "scalar"),
+                                                _ctfam(c))
             cs.append(c)
         if round == 0:
             # rejected: 1-d data with weights of another length / shape
@@ -223,7 +315,9 @@ class WMom(E):
                        "container": "f8", "family": "rejected-shape"})
             cs.append({"x": [[1.0, 2.0], [3.0, 4.0]], "w": [1.0, 2.0, 3.0], "im": None, "calcerr": True, "sdev": True,
                        "container": "f8", "family": "rejected-shape"})
-            cs.append({"x": 5.0, "w": 2.0, "im": None, "calcerr": True, "sdev": True, "container": "list",
+            cs.append({"x": 5.0, "w": 2.0, "im": None, "calcerr": True, "sdev": True, "ct": {"x": "scalar", "w": "scalar"},
+                       "family": "scalar-input"})
+            cs.append({"x": 5.0, "w": 2.0, "im": 4.5, "calcerr": True, "sdev": True, "ct": {"x": "0d", "w": "0d"},
                        "family": "scalar-input"})
         return cs
 
@@ -232,11 +326,11 @@ class WMom(E):
         import esutil.stat as st
 
         def f():
-            x = c["x"] if isinstance(c["x"], float) else _arr(c["x"], c["container"])
-            w = c["w"] if isinstance(c["w"], float) else np.array(c["w"], dtype="f8")
+            x = c["x"] if (isinstance(c["x"], float) and ct_of(c, "x") != "0d") else mk(c["x"], ct_of(c, "x"))
+            w = c["w"] if (isinstance(c["w"], float) and ct_of(c, "w") != "0d") else mk(c["w"], ct_of(c, "w"))
             im = c["im"]
             if isinstance(im, list):
-                im = np.array(im, dtype="f8")
+                im = mk(im, ct_of(c, "im"))
             kw = {"inputmean": im, "calcerr": c["calcerr"], "sdev": c["sdev"]}
             if c.get("omit_defaults"):
                 kw = {k: v for k, v in kw.items() if not (v is None or v is False)}
@@ -255,8 +349,10 @@ class WMom(E):
     def term(self, c, out):
         def pout(o):
             return "(%s, %s, %s)" % (nd(o[0]), nd(o[1]), opt(o[2] if len(o) > 2 else None, nd))
-        return "v_wmom %s %s %s %s %s %s" % (nd(c["x"]), nd(c["w"]), self._im(c["im"]), cbool(c["calcerr"]),
-                                             cbool(c["sdev"]), cres(out, pout))
+        # float32 data minus a python-float mean is evaluated in float32 by numpy
+        f4 = ct_of(c, "x") == "f4" and c["im"] is not None and not isinstance(c["im"], list)
+        return "%s %s %s %s %s %s %s" % ("v_wmom_e eps_f4" if f4 else "v_wmom", nd(c["x"]), nd(c["w"]), self._im(c["im"]),
+                                         cbool(c["calcerr"]), cbool(c["sdev"]), cres(out, pout))
 
     def nontrivial(self, c, out):
         x = c["x"]
@@ -281,26 +377,31 @@ class WMedian(E):
             cs.append({"x": [3.0, 1.0, 2.0, 4.0], "w": [0.1] * 4, "family": "equal-nondyadic-weights"})
             cs.append({"x": [1.0, 1.0, 2.0, 2.0, 3.0], "w": [1.0, 2.0, 1.0, 1.0, 1.0], "family": "ties-in-data"})
             cs.append({"x": [5.0, 4.0, 3.0], "w": [0.0, 0.0, 0.0], "family": "all-zero-weights"})
+            cs.append({"x": 5.0, "w": 2.0, "ct": {"x": "scalar", "w": "scalar"}, "family": "scalar-input"})
+            cs.append({"x": [3.0, 1.0, 2.0, 4.0], "w": [1.0, 2.0, 3.0, 1.0], "ct": {"x": "i4", "w": "i8"}, "family": "int-arrays"})
         for _ in range(ctx.n(300, 1800) if round == 0 else 150):
             n = r.choice(sizes(ctx, big=False))
             dk = r.choice(["ints", "ints", "gauss", "wide", "unit", "const"])
             wk = r.choice(WEIGHT_KINDS)
-            cs.append({"x": gen_data(r, n, dk), "w": gen_weights(r, n, wk), "family": "%s/%s" % (dk, wk)})
+            c = {"ct": {}}
+            c["x"], c["ct"]["x"] = prep(r, gen_data(r, n, dk))
+            c["w"], c["ct"]["w"] = prep(r, gen_weights(r, n, wk))
+            c["family"] = "%s/%s%s" % (dk, wk, _ctfam(c))
+            cs.append(c)
         return cs
 
     def impl(self, c):
-        import numpy as np
         import esutil.stat as st
-        return guarded(lambda: float(st.wmedian(np.array(c["x"], dtype="f8"), np.array(c["w"], dtype="f8"))))
+        return guarded(lambda: float(st.wmedian(mk(c["x"], ct_of(c, "x")), mk(c["w"], ct_of(c, "w")))))
 
     def term(self, c, out):
-        return "v_wmedian %s %s %s" % (qs(c["x"]), qs(c["w"]), cres(out, q1))
+        return "v_wmedian %s %s %s" % (qs(_l(c["x"])), qs(_l(c["w"])), cres(out, q1))
 
     def nontrivial(self, c, out):
-        return len(c["x"]) >= 3 and not _weights_equal(c["w"]) and len(set(c["x"])) >= 2
+        return isinstance(c["x"], list) and len(c["x"]) >= 3 and not _weights_equal(c["w"]) and len(set(c["x"])) >= 2
 
     def show(self, c):
-        return "wmedian %s %s" % (qs(c["x"]), qs(c["w"]))
+        return "wmedian %s %s" % (qs(_l(c["x"])), qs(_l(c["w"])))
 
 
 def _clip_case(r, ctx, weighted=None):
@@ -317,9 +418,13 @@ def _clip_case(r, ctx, weighted=None):
         weighted = r.random() < 0.45
     w = gen_weights(r, n, r.choice(WEIGHT_KINDS)) if weighted else None
     nsig = r.choice([r.uniform(0.5, 6.0), r.uniform(0.5, 3.0), r.choice([0.5, 1.0, 1.5, 2.0, 2.5, 3.0, 4.0, 6.0])])
-    return {"x": x, "w": w, "nsig": nsig, "niter": r.choice([r.randrange(0, 11), r.randrange(0, 11), 4]),
-            "omit_defaults": r.random() < 0.5,
-            "family": "%s/out=%d/%s" % (dk, k, "weighted" if weighted else "unweighted")}
+    c = {"nsig": nsig, "niter": r.choice([r.randrange(0, 11), r.randrange(0, 11), 4]), "omit_defaults": r.random() < 0.5, "ct": {}}
+    c["x"], c["ct"]["x"] = prep(r, x)
+    c["w"] = None
+    if w is not None:
+        c["w"], c["ct"]["w"] = prep(r, w)
+    c["family"] = "%s/out=%d/%s%s" % (dk, k, "weighted" if weighted else "unweighted", _ctfam(c))
+    return c
 
 
 def _tie_cases(r):
@@ -359,6 +464,11 @@ class SigmaClip(E):
             cs.append({"x": [4.0, 4.0, 4.0], "w": None, "nsig": 3.0, "niter": 4, "family": "constant-data"})
             cs.append({"x": [1.0, 2.0, 3.0], "w": [1.0, 2.0], "nsig": 3.0, "niter": 4, "family": "rejected-size"})
             cs.append({"x": [[1.0, 2.0], [3.0, 4.0]], "w": None, "nsig": 3.0, "niter": 4, "family": "rejected-2d"})
+            for t in _tie_cases(r)[::3]:         # the same exact ties handed over as integer arrays / lists
+                t = dict(t, ct={"x": r.choice(["i4", "i8", "list"])}, family=t["family"] + "[int/list]")
+                if t["w"] is not None:
+                    t["ct"]["w"] = r.choice(["i8", "list"])
+                cs.append(t)
         for _ in range(ctx.n(170, 1000) if round == 0 else 80):
             cs.append(_clip_case(r, ctx))
         return cs
@@ -368,11 +478,11 @@ class SigmaClip(E):
         import esutil.stat as st
 
         def f():
-            w = None if c["w"] is None else np.array(c["w"], dtype="f8")
+            w = None if c["w"] is None else mk(c["w"], ct_of(c, "w"))
             kw = {"niter": c["niter"], "nsig": c["nsig"]}
             if c.get("omit_defaults"):       # the documented defaults ("defaults to 4") are not passed
                 kw = {k: v for k, v in kw.items() if v != 4}
-            m, s, e, idx = st.sigma_clip(np.array(c["x"], dtype="f8"), weights=w,
+            m, s, e, idx = st.sigma_clip(mk(c["x"], ct_of(c, "x")), weights=w,
                                          get_err=True, get_indices=True, silent=True, extra={}, **kw)
             return [float(m), float(s), float(e), [int(i) for i in idx]]
         return guarded(f)
@@ -382,8 +492,10 @@ class SigmaClip(E):
             return "vres (sigma_clip %s None %s %s) %s (fun _ (_ : Q * Q * Q * list Z) => 1%%Z)" % (
                 nd(c["x"]), cz(c["niter"]), q1(c["nsig"]),
                 cres(out, lambda o: "(%s, %s, %s, %s)" % (q1(o[0]), q1(o[1]), q1(o[2]), clist(o[3]))))
-        return "v_sigma_clip %s %s %s %s %s" % (
-            qs(c["x"]), opt(c["w"], qs), cz(c["niter"]), q1(c["nsig"]),
+        # unweighted statistics of a float32 array (mean, std) and the clip comparison are evaluated in float32
+        f4 = ct_of(c, "x") == "f4" and c["w"] is None
+        return "%s %s %s %s %s %s" % (
+            "v_sigma_clip_e eps_f4" if f4 else "v_sigma_clip", qs(c["x"]), opt(c["w"], qs), cz(c["niter"]), q1(c["nsig"]),
             cres(out, lambda o: "(%s, %s, %s, %s)" % (q1(o[0]), q1(o[1]), q1(o[2]), clist(o[3]))))
 
     def nontrivial(self, c, out):
@@ -451,27 +563,37 @@ class InterpLin(E):
                     u.append(r.choice([-1, 1]) * 1e6)
                 else:
                     u.append(r.choice([x[0], x[-1]]))
-            cs.append({"v": v, "x": x, "u": u, "family": "%s/n=%s" % (kind, "2" if n == 2 else ("3-8" if n <= 8 else ">8"))})
+            c = {"ct": {}}
+            incr = lambda t: all(a < b for a, b in zip(t, t[1:]))
+            c["x"], c["ct"]["x"] = prep(r, x, ok=incr)
+            c["v"], c["ct"]["v"] = prep(r, v)
+            c["u"], c["ct"]["u"] = prep(r, u)
+            c["family"] = "%s/n=%s%s" % (kind, "2" if n == 2 else ("3-8" if n <= 8 else ">8"), _ctfam(c))
+            cs.append(c)
         if round == 0:
             cs.append({"v": [1.0], "x": [0.0], "u": [0.5], "family": "rejected-one-node"})
             cs.append({"v": [1.0, 3.0, 2.0], "x": [0.0, 1.0, 2.0], "u": [], "family": "no-queries"})
+            cs.append({"v": [1.0, 3.0, 2.0], "x": [0.0, 1.0, 2.0], "u": 0.5, "ct": {"u": "scalar"}, "family": "scalar-query"})
+            cs.append({"v": [1.0, 9.0, 4.0, 16.0], "x": [0.0, 3.0, 4.0, 8.0], "u": [-2.0, 1.0, 4.0, 7.0, 11.0],
+                       "ct": {"v": "i8", "x": "i4", "u": "i8"}, "family": "int-arrays"})
         return cs
 
     def impl(self, c):
         import numpy as np
         import esutil.stat as st
-        return guarded(lambda: canon(st.interplin(np.array(c["v"], dtype="f8"), np.array(c["x"], dtype="f8"),
-                                                  np.array(c["u"], dtype="f8"))))
+        return guarded(lambda: canon(st.interplin(mk(c["v"], ct_of(c, "v")), mk(c["x"], ct_of(c, "x")), mk(c["u"], ct_of(c, "u")))))
 
     def term(self, c, out):
-        return "v_interplin %s %s %s %s" % (qs(c["v"]), qs(c["x"]), qs(c["u"]), cres(out, qs))
+        # differences of float32 table entries are evaluated in float32
+        f4 = "f4" in (ct_of(c, "v"), ct_of(c, "x"))
+        return "%s %s %s %s %s" % ("v_interplin_e eps_f4" if f4 else "v_interplin", qs(c["v"]), qs(c["x"]), qs(_l(c["u"])), cres(out, qs))
 
     def nontrivial(self, c, out):
-        x, u = c["x"], c["u"]
+        x, u = c["x"], _l(c["u"])
         return len(x) >= 3 and any(x[0] < t < x[-1] and t not in x for t in u) and out[0] == "ok"
 
     def show(self, c):
-        return "interplin %s %s %s" % (qs(c["v"]), qs(c["x"]), qs(c["u"]))
+        return "interplin %s %s %s" % (qs(c["v"]), qs(c["x"]), qs(_l(c["u"])))
 
 
 class GetStats(E):
@@ -486,22 +608,27 @@ class GetStats(E):
             if mode.startswith("2d"):
                 n, d = r.choice([1, 2, 3, 5, 8, 20]), r.choice([1, 2, 3])
                 cols = [gen_data(r, n, r.choice(DATA_KINDS)) for _ in range(d)]
-                c = {"x": [[cols[j][i] for j in range(d)] for i in range(n)],
-                     "w": gen_weights(r, n, r.choice(WEIGHT_KINDS)) if mode == "2d-weights" else None,
-                     "nsig": None, "niter": None}
+                c = {"nsig": None, "niter": None, "ct": {}}
+                c["x"], c["ct"]["x"] = prep(r, [[cols[j][i] for j in range(d)] for i in range(n)])
+                c["w"] = None
+                if mode == "2d-weights":
+                    c["w"], c["ct"]["w"] = prep(r, gen_weights(r, n, r.choice(WEIGHT_KINDS)))
             else:
                 b = _clip_case(r, ctx, weighted=mode in ("weights", "clip+weights"))
-                c = {"x": b["x"], "w": b["w"], "nsig": None, "niter": None}
+                c = {"x": b["x"], "w": b["w"], "nsig": None, "niter": None, "ct": b["ct"]}
                 if mode.startswith("clip"):
                     which = r.choice(["nsig", "niter", "both", "both"])
                     if which in ("nsig", "both"):
                         c["nsig"] = b["nsig"]
                     if which in ("niter", "both"):
                         c["niter"] = b["niter"]
-            c["family"] = mode
+            c["family"] = mode + _ctfam(c)
             cs.append(c)
         if round == 0:
             cs.append({"x": [[1.0, 2.0], [3.0, 5.0]], "w": None, "nsig": 3.0, "niter": None, "family": "rejected-2d-clip"})
+            cs.append({"x": 5.0, "w": None, "nsig": None, "niter": None, "ct": {"x": "scalar"}, "family": "scalar-input"})
+            cs.append({"x": [3.0, 1.0, 2.0, 40.0], "w": [1.0, 2.0, 3.0, 1.0], "nsig": None, "niter": None,
+                       "ct": {"x": "i4", "w": "i8"}, "family": "int-arrays"})
         return cs
 
     def impl(self, c):
@@ -517,8 +644,8 @@ class GetStats(E):
             if kw:
                 kw["extra"] = ex
                 kw["silent"] = True
-            w = None if c["w"] is None else np.array(c["w"], dtype="f8")
-            g = st.get_stats(np.array(c["x"], dtype="f8"), weights=w, **kw)
+            w = None if c["w"] is None else mk(c["w"], ct_of(c, "w"))
+            g = st.get_stats(mk(c["x"], ct_of(c, "x")), weights=w, **kw)
             return [canon(g["min"]), canon(g["max"]), canon(g["mean"]), canon(g["std"]), canon(g["err"]),
                     [int(i) for i in ex.get("indices", [])]]
         return guarded(f)
@@ -529,7 +656,7 @@ class GetStats(E):
             cres(out, lambda o: "(%s, %s, %s, %s, %s, %s)" % (nd(o[0]), nd(o[1]), nd(o[2]), nd(o[3]), nd(o[4]), clist(o[5]))))
 
     def nontrivial(self, c, out):
-        if out[0] != "ok" or len(c["x"]) < 3:
+        if out[0] != "ok" or not isinstance(c["x"], list) or len(c["x"]) < 3:
             return False
         if c["nsig"] is not None or c["niter"] is not None:
             return len(out[1][5]) < len(c["x"])
@@ -575,7 +702,11 @@ class Cov2Cor(E):
         cs = []
         for _ in range(ctx.n(150, 1500) if round == 0 else 80):
             n, kind = r.randrange(1, 7), r.choice(COV_KINDS)
-            cs.append({"cov": _cov(r, n, kind), "family": "%s/n=%d" % (kind, n)})
+            c = {"ct": {}}
+            sym = lambda m: all(m[i][j] == m[j][i] for i in range(len(m)) for j in range(len(m))) and all(m[i][i] > 0 for i in range(len(m)))
+            c["cov"], c["ct"]["cov"] = prep(r, _cov(r, n, kind), kinds=("f8", "f4", "strided", "int", "int"), ok=sym)
+            c["family"] = "%s/n=%d%s" % (kind, n, _ctfam(c))
+            cs.append(c)
         if round == 0:
             cs.append({"cov": [[4.0, 1.0], [1.0, 0.0]], "family": "rejected-zero-diagonal"})
             cs.append({"cov": [[-1.0, 0.5], [0.5, 2.0]], "family": "rejected-negative-diagonal"})
@@ -585,10 +716,12 @@ class Cov2Cor(E):
     def impl(self, c):
         import numpy as np
         import esutil.stat as st
-        return guarded(lambda: canon(st.cov2cor(np.array(c["cov"], dtype="f8"))))
+        return guarded(lambda: canon(st.cov2cor(mk(c["cov"], ct_of(c, "cov")))))
 
     def term(self, c, out):
-        return "v_cov2cor %s %s" % (qm(c["cov"]), cres(out, qm))
+        # float32 scalars: cxx * cyy, sqrt and the quotient are evaluated in float32
+        f4 = ct_of(c, "cov") == "f4"
+        return "%s %s %s" % ("v_cov2cor_e eps_f4" if f4 else "v_cov2cor", qm(c["cov"]), cres(out, qm))
 
     def nontrivial(self, c, out):
         m = c["cov"]
@@ -607,13 +740,14 @@ class RoundTrip(Cov2Cor):
         import esutil.stat as st
 
         def f():
-            cov = np.array(c["cov"], dtype="f8")
+            cov = mk(c["cov"], ct_of(c, "cov"))
             cor = st.cov2cor(cov)
             return canon(st.cor2cov(cor, np.sqrt(np.diag(cov))))
         return guarded(f)
 
     def term(self, c, out):
-        return "v_roundtrip %s %s" % (qm(c["cov"]), cres(out, qm))
+        f4 = ct_of(c, "cov") == "f4"
+        return "%s %s %s" % ("v_roundtrip_e eps_f4" if f4 else "v_roundtrip", qm(c["cov"]), cres(out, qm))
 
     def show(self, c):
         return "cov2cor %s" % qm(c["cov"])
@@ -632,8 +766,12 @@ class Cor2Cov(E):
             for i in range(n):
                 for j in range(i, n):
                     cor[i][j] = cor[j][i] = 1.0 if i == j else r.uniform(-1, 1)
-            d = [10 ** r.uniform(-5, 5) for _ in range(n)]
-            cs.append({"cor": cor, "d": d, "family": "n=%d" % n})
+            d = [10 ** r.uniform(-5, 5) for _ in range(n)] if r.random() < 0.7 else [float(r.randrange(1, 50)) for _ in range(n)]
+            c = {"ct": {}}
+            c["cor"], c["ct"]["cor"] = prep(r, cor, kinds=("f8", "f4", "strided", "int"))
+            c["d"], c["ct"]["d"] = prep(r, d, kinds=("f8", "f4", "strided", "int"))
+            c["family"] = "n=%d%s" % (n, _ctfam(c))
+            cs.append(c)
         if round == 0:
             cs.append({"cor": [[1.0, 0.5], [0.5, 1.0]], "d": [1.0, 2.0, 3.0], "family": "rejected-shape"})
             cs.append({"cor": [[1.0, 0.5, 0.2], [0.5, 1.0, 0.1]], "d": [1.0, 2.0], "family": "rejected-shape"})
@@ -642,10 +780,12 @@ class Cor2Cov(E):
     def impl(self, c):
         import numpy as np
         import esutil.stat as st
-        return guarded(lambda: canon(st.cor2cov(np.array(c["cor"], dtype="f8"), np.array(c["d"], dtype="f8"))))
+        return guarded(lambda: canon(st.cor2cov(mk(c["cor"], ct_of(c, "cor")), mk(c["d"], ct_of(c, "d")))))
 
     def term(self, c, out):
-        return "v_cor2cov %s %s %s" % (qm(c["cor"]), qs(c["d"]), cres(out, qm))
+        # a product of float32 scalars only is evaluated in float32
+        f4 = "f4" in (ct_of(c, "cor"), ct_of(c, "d"))
+        return "%s %s %s %s" % ("v_cor2cov_e eps_f4" if f4 else "v_cor2cov", qm(c["cor"]), qs(c["d"]), cres(out, qm))
 
     def nontrivial(self, c, out):
         return len(c["d"]) >= 2 and out[0] == "ok"
@@ -663,8 +803,10 @@ class Boxcar(E):
         cs = []
         for _ in range(ctx.n(150, 1500) if round == 0 else 80):
             n = r.choice([1, 2, 3, 5, 8, 20, 40])
-            cs.append({"x": gen_data(r, n, r.choice(DATA_KINDS)), "N": r.choice([1, 2, 3, 5, n, n + 1, n + 3, max(1, n - 1)]),
-                       "family": "n=%s" % ("1-3" if n <= 3 else ">3")})
+            c = {"N": r.choice([1, 2, 3, 5, n, n + 1, n + 3, max(1, n - 1)]), "ct": {}}
+            c["x"], c["ct"]["x"] = prep(r, gen_data(r, n, r.choice(DATA_KINDS)))
+            c["family"] = "n=%s%s" % ("1-3" if n <= 3 else ">3", _ctfam(c))
+            cs.append(c)
         if round == 0:
             cs.append({"x": [1.0, 2.0, 3.0], "N": 0, "family": "rejected-window"})
             cs.append({"x": [1.0, 2.0, 3.0], "N": -2, "family": "rejected-window"})
@@ -674,7 +816,7 @@ class Boxcar(E):
     def impl(self, c):
         import numpy as np
         import esutil.stat as st
-        return guarded(lambda: canon(st.boxcar_average(np.array(c["x"], dtype="f8"), c["N"])))
+        return guarded(lambda: canon(st.boxcar_average(mk(c["x"], ct_of(c, "x")), c["N"])))
 
     def term(self, c, out):
         return "v_boxcar %s %s %s" % (qs(c["x"]), cz(c["N"]), cres(out, qs))
